@@ -9,6 +9,8 @@ import PhpVerif.Model.Pratt
 import PhpVerif.Model.Render
 import PhpVerif.Props.C15
 import PhpVerif.Gen.FmtCode
+import PhpVerif.Gen.ResolverCode
+import PhpVerif.Gen.TraverserTab
 import PhpVerif.Gen.Tables7
 import PhpVerif.Gen.Tables5
 import PhpVerif.Gen.Terms7
@@ -237,6 +239,27 @@ partial def dumpTree : Tree → String
       else none)
     "N" ++ toString k ++ "(" ++ ";".intercalate fields ++ ")"
 
+/-! `nsrtree <tree>`: the resolver model on a whole tree: the final map as `path=hex` entries sorted by path. -/
+def resProgArr : Array (List NsrT.RI) := Gen.resProgs.toArray
+def travArr : Array (List Nat) := Gen.travTab.toArray
+def rn (i : Nat) : Nat := Gen.resNums.getD i 0
+def resCfg : NsrT.RCfg :=
+  { prog := fun k => resProgArr.getD k [], trav := fun k => travArr.getD k [],
+    kName := rn 0, kFQ := rn 1, kRel := rn 2, kPart := rn 3, kIdent := rn 4, kParam := rn 5, kNullable := rn 6, kUse := rn 7,
+    kConst := rn 8, kPrec := rn 9, kAlias := rn 10,
+    nameParts := rn 11, fqParts := rn 12, relParts := rn 13, partVal := rn 14, identVal := rn 15, paramType := rn 16, nullableExpr := rn 17,
+    useType := rn 18, useUse := rn 19, useAlias := rn 20, constName := rn 21, precTrait := rn 22, precInstead := rn 23, aliasTrait := rn 24 }
+
+def pathStr (p : NsrT.Path) : String := "/".intercalate (p.map (fun x => toString x.1 ++ "." ++ toString x.2))
+
+def runNsrTree (t : Tree) : String :=
+  match NsrT.resolveTree resCfg t with
+  | none => "panic"
+  | some out =>
+    let m := (NsrT.finalMap out).map (fun e => (pathStr e.1, toHex e.2))
+    let sorted := m.toArray.qsort (fun a b => a.1 < b.1)
+    if sorted.isEmpty then "-" else ";".intercalate (sorted.toList.map (fun e => e.1 ++ "=" ++ e.2))
+
 def litBytes (id : Nat) : Bytes :=
   match Gen.printerLits.find? (·.1 == id) with
   | some (_, b) => b.map (fun n => UInt8.ofNat n)
@@ -448,6 +471,10 @@ def handle (ws : List String) : String :=
     match m.toNat? with
     | some m => natsStr (NL.lineStarts (unhex h) m)
     | none => "bad-op"
+  | ["nsrtree", enc] =>
+    match pTree false (enc.splitOn ",") with
+    | some (t, []) => runNsrTree t
+    | _ => "bad-op"
   | ["format", enc] =>
     match pTree true (enc.splitOn ",") with
     | some (t, []) =>
